@@ -175,7 +175,7 @@ type state struct {
 
 var st state
 
-func reset() { st = state{} }
+func reset() { st = state{}; bp = nil }
 
 // ------------------------------------------------------------------ parsing / printing
 
